@@ -17,14 +17,15 @@
 EXTENDS Transform, IOUtils
 
 Traces == JsonDeserialize(IOEnv.TRACES)
-VARIABLES tid, l, nrej
-tvars == <<tid, l, nrej, snap, wf, hfun, eqobs, hobs, copies, calls>>
+VARIABLES tid, l, nrej,
+          tainted   \* objects whose digest changed under a call: no longer values, their == / hash are not judged
+tvars == <<tid, l, nrej, tainted, snap, wf, hfun, eqobs, hobs, copies, calls>>
 
 Events == Traces[tid].events
 Ev == Events[l]
 SetOf(s) == {s[i] : i \in DOMAIN s}
 
-TraceInit == /\ tid \in 1..Len(Traces) /\ l = 1 /\ nrej = 0
+TraceInit == /\ tid \in 1..Len(Traces) /\ l = 1 /\ nrej = 0 /\ tainted = {}
              /\ snap = <<>> /\ wf = <<>> /\ eqobs = {} /\ hobs = {} /\ copies = {} /\ calls = <<>>
              /\ hfun = <<>>
 
@@ -52,11 +53,13 @@ CanCopy == /\ Ev.ev = "copy" /\ Ev.res >= 1 /\ Ev.res <= Len(Ev.post)
            /\ IF Ev.res = Ev.o THEN Same ELSE Grown
            /\ CopyOfG(Ev.o, Ev.res, Ev.post[Ev.res])
            /\ CopyOK(eqobs, copies \cup {<<Ev.o, Ev.res>>})
-CanObserve == /\ Ev.ev = "obs" /\ Same /\ Ev.eq \in {"true", "false"}
+Tainted == Ev.ev = "obs" /\ ({Ev.a, Ev.b} \cap tainted # {})
+CanObserve == /\ Ev.ev = "obs" /\ ~Tainted /\ Same /\ Ev.eq \in {"true", "false"}
               /\ Ev.ha # "raised" /\ Ev.hb # "raised"
               /\ ObserveG(Ev.a, Ev.b, Ev.ha, Ev.hb)
               /\ ObsOK(E2, H2, copies)
-Can == l <= Len(Events) /\ (CanLoad \/ CanCall \/ CanCopy \/ CanObserve)
+CanSkip == Tainted /\ Same           \* an observation on a mutated object: only the frame is judged
+Can == l <= Len(Events) /\ (CanLoad \/ CanCall \/ CanCopy \/ CanObserve \/ CanSkip)
 
 TraceLoad == Ev.ev = "load" /\ Load(Ev.post[Len(Ev.post)], SetOf(Ev.wf))
 TraceCall == /\ Ev.ev = "call"
@@ -66,14 +69,16 @@ TraceCall == /\ Ev.ev = "call"
                 \/ Ev.out = "value" /\ CallValue(Ev.f, Ev.args)
                 \/ Ev.out = "raised" /\ CallRaise(Ev.f, Ev.args)
 TraceCopy == Ev.ev = "copy" /\ CopyOf(Ev.o, Ev.res, Ev.post[Ev.res])
-TraceObserve == Ev.ev = "obs" /\ Observe(Ev.a, Ev.b, Ev.eq = "true", Ev.ha, Ev.hb)
+TraceObserve == Ev.ev = "obs" /\ ~Tainted /\ Observe(Ev.a, Ev.b, Ev.eq = "true", Ev.ha, Ev.hb)
+TraceSkip == Tainted /\ UNCHANGED <<snap, wf, hfun, eqobs, hobs, copies, calls>>
 
 Explained == /\ Can = TRUE      \* (as an equation: TLC then evaluates the predicate as a value instead of
                               \*  unfolding its nested quantifiers recursively as an action)
-             /\ (TraceLoad \/ TraceCall \/ TraceCopy \/ TraceObserve)
+             /\ (TraceLoad \/ TraceCall \/ TraceCopy \/ TraceObserve \/ TraceSkip)
              /\ snap' = Ev.post                 \* the frame, on the logged digests
-             /\ l' = l + 1 /\ UNCHANGED <<tid, nrej>>
+             /\ l' = l + 1 /\ UNCHANGED <<tid, nrej, tainted>>
 
+Changed == {o \in 1..Len(snap) : o <= Len(Ev.post) /\ Ev.post[o] # snap[o]}
 \* re-synchronise after an unexplained event
 Resync == /\ l <= Len(Events) /\ Can = FALSE
           /\ snap' = Ev.post
@@ -82,13 +87,13 @@ Resync == /\ l <= Len(Events) /\ Can = FALSE
           /\ calls' = IF Ev.ev = "call" THEN Append(calls, [f |-> Ev.f, args |-> Ev.args, out |-> "unjudged", res |-> Ev.res]) ELSE calls
           /\ hobs' = IF Ev.ev = "obs" THEN {p \in hobs : p[1] \notin {Ev.a, Ev.b}} ELSE hobs
           /\ UNCHANGED <<hfun, eqobs, copies, tid>>
+          /\ tainted' = tainted \cup Changed
           /\ l' = l + 1 /\ nrej' = nrej + 1
 
 TraceNext == Explained \/ Resync
 TraceSpec == TraceInit /\ [][TraceNext]_tvars
 
 \* ----- diagnosis of an unexplained event (only evaluated when it is reported)
-Changed == {o \in 1..Len(snap) : o <= Len(Ev.post) /\ Ev.post[o] # snap[o]}
 ObsWhy == IF Ev.eq \notin {"true", "false"} THEN "eq_raised"
           ELSE IF Ev.ha = "raised" \/ Ev.hb = "raised" THEN "hash_raised"
           ELSE IF (\E p \in hobs : (p[1] = Ev.a /\ p[2] # Ev.ha) \/ (p[1] = Ev.b /\ p[2] # Ev.hb))
